@@ -96,8 +96,70 @@ func exprNodes(x any, out *[]*expr.Expression) {
 	}
 }
 
+// c15StockDrivers: customising one driver obtained from NewPostgresDriver (in place, as the
+// RenderFNs field invites) must not change any other driver nor the package-level renderers.
+func c15StockDrivers(ctx *core.Ctx) {
+	queries := []string{"a:b", "a:b~2 AND c:d", "x:y^3", "a:[1 TO 5] OR b:c*"}
+	type res struct {
+		s   string
+		err bool
+	}
+	snapshot := func() []res {
+		out := []res{}
+		for _, q := range queries {
+			e, perr, ok := parse(ctx, q, "")
+			if !ok || perr != nil {
+				out = append(out, res{"parse error", true})
+				continue
+			}
+			var s1, s2, s3 string
+			var e1, e2, e3 error
+			ctx.Call("Render(fresh driver)", func() { s1, e1 = driver.NewPostgresDriver().Render(e) })
+			ctx.Call("ToPostgres", func() { s2, e2 = lucene.ToPostgres(q) })
+			ctx.Call("ToParameterizedPostgres", func() { s3, _, e3 = lucene.ToParameterizedPostgres(q) })
+			out = append(out, res{s1, e1 != nil}, res{s2, e2 != nil}, res{s3, e3 != nil})
+		}
+		return out
+	}
+	ctx.Case("customise one stock postgres driver in place", func() {
+		before := snapshot()
+		d := driver.NewPostgresDriver()
+		tr := &tracer{}
+		origEq, hadEq := d.RenderFNs[expr.Equals]
+		d.RenderFNs[expr.Fuzzy] = tr.fn(expr.Fuzzy, true)
+		d.RenderFNs[expr.Boost] = tr.fn(expr.Boost, true)
+		d.RenderFNs[expr.Equals] = tr.fn(expr.Equals, true)
+		delete(d.RenderFNs, expr.Range)
+		if e, perr, ok := parse(ctx, "a:b~2", ""); ok && perr == nil {
+			ctx.Call("Render(customised driver)", func() { _, _ = d.Render(e) })
+		}
+		after := snapshot()
+		ctx.Count("stock_driver_comparisons", int64(len(before)))
+		for i := range before {
+			if before[i] != after[i] {
+				ctx.Violate("c15:customising-one-driver-changes-others", "after replacing functions on one driver obtained from NewPostgresDriver, another renderer changed: %q (error=%v) became %q (error=%v)", before[i].s, before[i].err, after[i].s, after[i].err)
+				break
+			}
+		}
+		// undo (only matters if the maps are shared, which is the violation)
+		delete(d.RenderFNs, expr.Fuzzy)
+		delete(d.RenderFNs, expr.Boost)
+		if hadEq {
+			d.RenderFNs[expr.Equals] = origEq
+		}
+		if fresh := driver.NewPostgresDriver(); fresh.RenderFNs[expr.Range] == nil {
+			if r, ok := driver.Shared[expr.Range]; ok {
+				d.RenderFNs[expr.Range] = r
+			}
+		}
+	})
+}
+
 func (p c15) RunBatch(ctx *core.Ctx, batch int) {
 	mon.Install()
+	if batch%16 == 0 {
+		c15StockDrivers(ctx)
+	}
 	sp := c15Space(ctx.Tier)
 	nEnum := nBatches(sp.Size())
 	stride := 1
